@@ -4,6 +4,7 @@ package main
 
 import (
 	"fmt"
+	"go/token"
 	"strings"
 
 	"golang.org/x/tools/go/ssa"
@@ -324,7 +325,7 @@ func checkStopOnFailed(c *Ctx, r *Report) {
 					lb := loopBlocks(hb)
 					for _, pr := range ret.Block().Preds {
 						// leaving through the loop header is the ordinary end of the loop (range exhausted / condition false)
-						if lb[pr] && pr != hb {
+						if lb[pr] && pr != hb && !leavesAtLastIndex(hb, pr, ret.Block()) {
 							inLoop = true
 						}
 					}
@@ -472,4 +473,36 @@ func checkAggregate(c *Ctx, r *Report) {
 	})
 	r.Check(okFailed, rule, "SendConfig copies Failed", c.Pos(sc.Pos()), "r.Failed = m.Failed", "the collapsed config response does not carry the multi response's failure")
 	r.Check(okJoin && okElems, rule, "SendConfig joins the members' results", c.Pos(sc.Pos()), "strings.Join of each member's Result", "the collapsed config response's result is not the join of the members' results")
+}
+
+// leavesAtLastIndex: the edge pr -> out leaves the counted loop with header hb exactly when the induction variable has
+// reached its last value (`if i == last { break }` with the loop running while i <= last, or i == n-1 while i < n):
+// nothing is skipped, it is the ordinary end of the loop written as a break.
+func leavesAtLastIndex(hb, pr, out *ssa.BasicBlock) bool {
+	hc, ok := ifCond(hb).(*ssa.BinOp)
+	if !ok || (hc.Op != token.LSS && hc.Op != token.LEQ) {
+		return false
+	}
+	phi, ok := hc.X.(*ssa.Phi)
+	if !ok || phi.Block() != hb || !isCountingPhi(phi) {
+		return false
+	}
+	bc, ok := ifCond(pr).(*ssa.BinOp)
+	if !ok || bc.Op != token.EQL || len(pr.Succs) != 2 || pr.Succs[0] != out {
+		return false
+	}
+	var other ssa.Value
+	switch {
+	case bc.X == ssa.Value(phi):
+		other = bc.Y
+	case bc.Y == ssa.Value(phi):
+		other = bc.X
+	default:
+		return false
+	}
+	d := linOf(hc.Y, 0).addScaled(linOf(other, 0), -1)
+	if !d.isConst() {
+		return false
+	}
+	return (hc.Op == token.LEQ && d.c == 0) || (hc.Op == token.LSS && d.c == 1)
 }
